@@ -243,11 +243,12 @@ class Ctx:
             "wall_s": round(wall, 2),
             "violations": nviol,
         }
-        os.makedirs(os.path.join(VERIF, "evidence"), exist_ok=True)
-        tmp = os.path.join(VERIF, "evidence", ".%s.json.tmp" % self.prop)
+        evdir = os.environ.get("VERIF_EVIDENCE_DIR") or os.path.join(VERIF, "evidence")   # (override only used by tools/try_mutant.sh)
+        os.makedirs(evdir, exist_ok=True)
+        tmp = os.path.join(evdir, ".%s.json.tmp" % self.prop)
         with open(tmp, "w") as f:
             json.dump(ev, f, indent=1, default=str)
-        os.replace(tmp, os.path.join(VERIF, "evidence", "%s.json" % self.prop))
+        os.replace(tmp, os.path.join(evdir, "%s.json" % self.prop))
         for l in lines:
             print(l)
         print("%s %s tier=%s seed=%d evaluations=%d distinct_nontrivial=%d inconclusive=%d violations=%d wall=%.1fs" % (
@@ -259,7 +260,7 @@ class Ctx:
 
 def write_replay(prop, case, verdict):
     h = case_hash(case)
-    d = os.path.join(VERIF, "replays", prop, h)
+    d = os.path.join(os.environ.get("VERIF_REPLAY_DIR") or os.path.join(VERIF, "replays"), prop, h)
     os.makedirs(d, exist_ok=True)
     with open(os.path.join(d, "case.json"), "w") as f:
         json.dump({"property": prop, "case": case, "why": verdict.why, "observed": verdict.obs},
